@@ -18,7 +18,7 @@ import (
 type W struct {
 	*ev.Ctx
 	hasAVX512 bool
-	reuse     [4]reuseSlot // per string mode; +2 for the minimiser's own slots
+	reuse     [8]reuseSlot // [bank*2+copy]; bank 0 main, 1 minimiser, 2/3 differential pairs
 	region    *guard.Region
 }
 
@@ -30,7 +30,7 @@ type reuseSlot struct {
 func newW(ctx *ev.Ctx) *W {
 	w := &W{Ctx: ctx, hasAVX512: cpuid.CPU.Has(cpuid.AVX512F)}
 	// warm the reuse slots so that rejected inputs reuse too
-	for bank := 0; bank < 2; bank++ {
+	for bank := 0; bank < 4; bank++ {
 		for _, c := range []bool{false, true} {
 			w.parseSlot([]byte(`{"warm":["up",1]}`), Config{false, c}, false, false, bank)
 		}
